@@ -21,7 +21,7 @@ RULE = ("a case = (serializer with auto-proxy support, history of <= 16 steps fr
         "unregister(obj k | id | unknown id | Pyro.Daemon), uriFor, proxyFor, call(id), registered, give(obj k) through a relay method, drop "
         "last reference + gc}). Non-trivial: the history contains unregister-by-id, force, or weak+gc, followed by a call or a give; "
         "distinct = distinct case JSON")
-ASSUMPTIONS = ["forcing a registration of an object that is currently registered under ANOTHER id is not generated (the statement leaves open which id unregister(obj) then removes)",
+ASSUMPTIONS = ["an object registered under several ids (forced) is never unregistered BY OBJECT (the statement leaves open which id goes); if its marked id is taken over by another object only calls by id are judged for it",
                "forced replacement of Pyro.Daemon itself is not generated ('silently' is ambiguous for an explicit force)",
                "unregistering something that is not registered may be a no-op or a DaemonError",
                "an unregistered object must travel exactly like a never-registered twin of the same class (differential)"]
@@ -88,6 +88,7 @@ step = st.one_of(
     st.tuples(st.just("uri"), st.sampled_from([0, 1, 2, 3, 4])),
     st.tuples(st.just("proxyfor"), st.sampled_from([0, 1, 2, 3, 4])),
     st.tuples(st.just("registered")),
+    st.tuples(st.just("unregister_instance")),
     st.tuples(st.just("drop"), st.sampled_from([0, 1, 2, 3, 4])),
     st.tuples(st.just("daemon_ping")),
 ).map(list)
@@ -167,11 +168,18 @@ def run_case(case, servertype=None, keep=False):
             return gen_ids[i] if i < len(gen_ids) else "nonexistent-generated-id"
         return name
 
+    def ids_of(k):
+        return [i for i, kk in model.items() if kk == k]
+
     def holder(k):
-        for i, kk in model.items():
-            if kk == k:
-                return i
-        return None
+        ids = ids_of(k)
+        if not ids:
+            return None
+        return marked.get(k) if marked.get(k) in ids else ids[0]
+
+    marked = {}         # pool index -> the id of its most recent registration (what the object's own marks say)
+    murky = set()       # objects registered under several ids whose MARKED id was taken over by another object: the statement
+                        # does not say how such an object travels / which id uriFor gives: only calls by id are judged for them
 
     try:
         for n, s in enumerate(case["steps"]):
@@ -182,8 +190,8 @@ def run_case(case, servertype=None, keep=False):
                 _, k, oid, force, wk = s
                 obj = POOL[k]
                 cur = holder(k)
-                if force and cur is not None and (oid is None or oid != cur):
-                    continue        # excluded shape: forced re-registration of a registered object under another id
+                if force and cur is not None and (oid is None or oid != cur) and (wk or any(weak.get(i) for i in ids_of(k)) or k == 4):
+                    continue        # forced registration under a SECOND id is only generated for strongly registered instances
                 if force and oid == "Pyro.Daemon":
                     continue        # excluded shape
                 if force and oid == "relay":
@@ -224,12 +232,32 @@ def run_case(case, servertype=None, keep=False):
                     elif rid != oid:
                         viol("register-uri", "%s returned uri for id %r" % (label, rid))
                     if rid in model and model[rid] != k:
-                        pass        # forced displacement: the previous holder is no longer registered
+                        prev = model[rid]
+                        if marked.get(prev) == rid and len(ids_of(prev)) > 1:
+                            murky.add(prev)     # it stays registered under its other id(s), but its marks named this one
                     model[rid] = k
+                    marked[k] = rid
                     weak[rid] = wk
                 obj = None
+            elif op == "unregister_instance":
+                # an instance of the registered class is not itself registered: unregistering it must not touch the class
+                before_ids = set(model)
+                try:
+                    d.unregister(POOL[4]())
+                except errors.DaemonError:
+                    pass
+                except Exception as x:
+                    viol("unregister-raises", "%s raised %r" % (label, x))
+                    break
+                for rid in [i for i, kk in model.items() if kk == 4]:
+                    if rid not in d.objectsById:
+                        viol("unregister-instance-removed-class", "%s: unregistering an instance of the class registered under %r removed the class registration" % (label, rid))
+                if V:
+                    break
             elif op == "unregister_obj":
                 k = s[1]
+                if len(ids_of(k)) > 1 or k in murky:
+                    continue        # registered under several ids: the statement does not say which one goes
                 cur = holder(k)
                 try:
                     d.unregister(POOL[k])
@@ -241,6 +269,7 @@ def run_case(case, servertype=None, keep=False):
                         break
                 if cur is not None:
                     del model[cur]
+                    marked.pop(k, None)
             elif op == "unregister_id":
                 rid = real_id(s[1])
                 try:
@@ -287,6 +316,8 @@ def run_case(case, servertype=None, keep=False):
                     break
             elif op in ("uri", "proxyfor"):
                 k = s[1]
+                if k in murky:
+                    continue
                 cur = holder(k)
                 try:
                     r = d.uriFor(POOL[k]) if op == "uri" else d.proxyFor(POOL[k])
@@ -298,11 +329,13 @@ def run_case(case, servertype=None, keep=False):
                 if cur is None and res[0] == "ok":
                     viol("uri-for-unregistered", "%s: object is not registered but got id %r" % (label, res[1]))
                     break
-                if cur is not None and res != ("ok", cur):
+                if cur is not None and not (res[0] == "ok" and res[1] in ids_of(k)):
                     viol("uri-for-registered", "%s: object is registered under %r, got %r" % (label, cur, res))
                     break
             elif op == "give":
                 k = s[1]
+                if k in murky:
+                    continue
                 cur = holder(k)
                 got = _outcome(lambda: relay.give(k))
                 if cur is not None:
@@ -318,6 +351,15 @@ def run_case(case, servertype=None, keep=False):
             elif op == "drop":
                 k = s[1]
                 cur = holder(k)
+                for extra in ids_of(k)[1:] if len(ids_of(k)) > 1 else []:
+                    try:
+                        d.unregister(extra)
+                    except Exception:
+                        pass
+                    model.pop(extra, None)
+                cur = holder(k)
+                murky.discard(k)
+                marked.pop(k, None)
                 POOL[k] = fresh(k)
                 gc.collect()
                 if cur is not None:
@@ -391,6 +433,9 @@ CATALOGUE = [
     [["register", 0, "x", False, False], ["unregister_obj", 0], ["unregister_obj", 0], ["give", 0], ["register", 0, "x", False, False], ["call", "x"], ["give", 0]],
     [["register", 0, "", False, False], ["register", 1, "", False, True], ["registered"], ["drop", 1], ["registered"], ["call", "gen0"], ["call", "gen1"]],
     [["register", 4, "x", False, False], ["call", "x"], ["give", 4], ["uri", 4], ["register", 4, None, False, False], ["unregister_id", "x"], ["give", 4], ["call", "x"], ["registered"]],
+    [["register", 0, "x", False, False], ["register", 0, "y", True, False], ["register", 1, "x", True, False], ["give", 0], ["uri", 0], ["call", "y"], ["call", "x"], ["registered"]],
+    [["register", 0, "x", False, False], ["register", 0, "y", True, False], ["give", 0], ["call", "x"], ["call", "y"], ["unregister_id", "x"], ["give", 0], ["call", "y"], ["registered"]],
+    [["register", 4, "x", False, False], ["unregister_instance"], ["call", "x"], ["give", 4], ["registered"], ["unregister_instance"], ["uri", 4]],
     [["register", 4, "x", False, True], ["register", 4, "x", False, False], ["register", 0, "x", True, False], ["give", 4], ["uri", 4], ["unregister_obj", 4], ["call", "x"], ["give", 0]],
 ]
 
